@@ -622,7 +622,7 @@ theorem setKey_pres (C : Ctx) (i : Nat) (x : St) (w w' : AS) (u : Up)
       split at h
       · simp only [Except.ok.injEq, Prod.mk.injEq] at h
         obtain ⟨rfl, rfl⟩ := h
-        have := pres_key C n ps hid k v ml i (.prim cur) b (.prim x) .direct hc (pres_prim_direct C cur x)
+        have := pres_key C n ps hid k v ml i (.prim cur) b (.prim x) .direct hc (pres_prim_direct C cur x).snd (pres_prim_direct C cur x).sync
         simpa [trackerRecv_direct, setNth] using this
       · simp only [Except.ok.injEq, Prod.mk.injEq] at h
         obtain ⟨rfl, rfl⟩ := h
@@ -640,7 +640,7 @@ theorem setValue_pres (C : Ctx) (i : Nat) (x : St) (w w' : AS) (u : Up)
       split at h
       · simp only [Except.ok.injEq, Prod.mk.injEq] at h
         obtain ⟨rfl, rfl⟩ := h
-        have := pres_val C n ps hid k v ml i a (.prim cur) (.prim x) .direct hc (pres_prim_direct C cur x)
+        have := pres_val C n ps hid k v ml i a (.prim cur) (.prim x) .direct hc (pres_prim_direct C cur x).snd (pres_prim_direct C cur x).sync
         simpa [trackerRecv_direct, setNth] using this
       · simp only [Except.ok.injEq, Prod.mk.injEq] at h
         obtain ⟨rfl, rfl⟩ := h
